@@ -29,6 +29,7 @@ def run_demo(pdir, wt, meta):
         c = re.sub(r"\s+\((?:exit|prints|expect|with|no |should|returns|OK|the )[^)]*\)\s*$", "", c)
         c = re.sub(r"\s{2,}\(.*$", "", c)
         c = re.sub(r"\s+#.*$", "", c)
+        c = re.sub(r"\s*;\s*echo \$\?\s*$", "", c)
         return c
     cmds = [clean(c) for c in cmds if not c.strip().startswith('(')]
     out_all, rc = "", 0
@@ -103,7 +104,7 @@ def main():
         root = sys.argv[2]
         only = sys.argv[3:]
         results = {}
-        rpath = os.path.join(VERIF, "seeded", "results.json")
+        rpath = os.path.join(VERIF, "seeded", "results.json" if "seed2" not in root else "results2.json")
         if os.path.exists(rpath):
             results = json.load(open(rpath))
         for od in sorted(glob.glob(os.path.join(root, "out_*"))):
